@@ -1044,6 +1044,72 @@ int main(int argc, char** argv) {
             TN);
   }
 
+  {
+    // a transform applied to an unevaluated NESTED union: o2( o1(A + B) + C ) + D, every intermediate a temporary, so
+    // that the evaluator may flatten the nest and has to compose o2 and o1 itself.  D is a small cube inside the
+    // transformed solid (the union with a subset changes nothing), so the result must be o2 applied to the solid
+    // X = o1(A + B) + C, which is built eagerly (every step forced) for the comparison.
+    std::vector<TOp> OPS = {opTranslate(1, -2, 0.5), opRotate(90, 0, 0),   opRotate(0, 0, 90),   opRotate(180, 90, 270), opRotate(30, 0, 0),
+                            opRotate(17, 31, 47),    opScale(-1, 1, 1),    opScale(2, 3, 0.25),  opScale(-0.5, 2, -3),   opMirror(1, 2, 3),
+                            opTransform(0),          opTransform(3),       opTransform(5),       opTransform(6)};
+    const int nOps = (int)OPS.size();
+    std::vector<int> radix = {nOps, nOps, 3};
+    R.phase("transform-nested", product(radix), 6,
+            [&](uint64_t idx, Ctx& c) {
+              auto d = digits(idx, radix);
+              const TOp &o1 = OPS[d[0]], &o2 = OPS[d[1]];
+              const int opk = d[2];  // the Boolean used at every level: + (flattened), ^, -
+              static const char* ON[3] = {"+", "^", "-"};
+              std::string key = std::string("TN:") + o2.name + "(" + o1.name + "(Box" + ON[opk] + "Tet)" + ON[opk] + "Cone5)" + ON[opk] + "D";
+              c.describe(key);
+              Quality::ResetToDefaults();
+              auto bop = [&](const Manifold& x, const Manifold& y) { return opk == 0 ? x + y : opk == 1 ? (x ^ y) : x - y; };
+              // eager X
+              Manifold ab = bop(B[0].make(), B[1].make());
+              (void)ab.NumTri();
+              Manifold x1 = o1.f(ab);
+              (void)x1.NumTri();
+              Manifold X = bop(x1, B[2].make());
+              (void)X.NumTri();
+              if (X.IsEmpty()) {
+                c.count("configs");
+                return;  // nothing to classify
+              }
+              MeshGL64 gm = X.GetMeshGL64();
+              double vol = X.Volume();
+              // D: neutral for the operation at the top level (inside the solid for +, a superset box for ^, far away for -)
+              Manifold Dn;
+              if (opk == 0) {
+                // a tiny cube around an interior point of X: centroid of the first triangle pushed inwards is fragile; use
+                // a point of X found by sampling its bounding box with the harness oracle
+                Soup sx = soupOf(gm);
+                Box bb = X.BoundingBox();
+                V3 in{0, 0, 0};
+                bool found = false;
+                for (int i = 1; i < 12 && !found; ++i)
+                  for (int j = 1; j < 12 && !found; ++j)
+                    for (int k = 1; k < 12 && !found; ++k) {
+                      V3 p{bb.min.x + (bb.max.x - bb.min.x) * i / 12.0L, bb.min.y + (bb.max.y - bb.min.y) * j / 12.0L, bb.min.z + (bb.max.z - bb.min.z) * k / 12.0L};
+                      if (lroundl(winding(sx, p)) == 1 && distToSoup(sx, p) > 0.06L) in = p, found = true;
+                    }
+                if (!found) {
+                  c.count("configs");
+                  return;
+                }
+                Dn = o2.f(Manifold::Cube({0.05, 0.05, 0.05}, true).Translate({(double)in.x, (double)in.y, (double)in.z}));
+              } else if (opk == 1) {
+                Dn = Manifold::Cube({400, 400, 400}, true);
+              } else {
+                Dn = Manifold::Cube({1, 1, 1}).Translate({500, 500, 500});
+              }
+              (void)Dn.NumTri();
+              Manifold r = bop(o2.f(bop(o1.f(bop(B[0].make(), B[1].make())), B[2].make())), Dn);
+              judgeTransform(c, key, r, gm, vol, o2.a, false, GT);
+              if (idx % 101 == 0) c.sample(key);
+            },
+            TN);
+  }
+
   // ================================================================ Quality
   {
     // every setting x radius x constructor: the segment count present in the result equals
